@@ -28,7 +28,10 @@ import (
 var zzvPool = []string{"p@v1.0.0-go1.21.0-linux-amd64-2024-01-01.v1.count", "x.v1.count", ".v1.count", "x.v2.count", "x.v1.count.bak", "xv1.count", "x.v1.counts",
 	"2024-01-07.json", "local.2024-01-07.json", "x.json", ".json", "x.json.lock", "xjson", "x.JSON", "weekends", "upload.token", "mode",
 	// sub-directories (trailing slash) named like data files: an empty one, and one holding a file
-	"sub.json/", "sub.v1.count/inner.json"}
+	"sub.json/", "sub.v1.count/inner.json",
+	// symbolic links (trailing @) named like data files, pointing at a regular file in the root: the uploader
+	// and the viewer read through them, so they are data files; clean removes the link, never the target
+	"ln.v1.count@", "ln.json@"}
 
 func zzvIsData(dir, name string) bool {
 	switch dir {
@@ -50,6 +53,10 @@ func zzvPopulate(root string, tree zzvTree, mode string) {
 		for _, n := range names {
 			if strings.HasSuffix(n, "/") {
 				os.MkdirAll(filepath.Join(d, n), 0o777)
+				continue
+			}
+			if strings.HasSuffix(n, "@") {
+				os.Symlink(filepath.Join(root, "x.json"), filepath.Join(d, strings.TrimSuffix(n, "@")))
 				continue
 			}
 			os.MkdirAll(filepath.Dir(filepath.Join(d, n)), 0o777)
@@ -104,14 +111,14 @@ func zzvCheckStep(fail func(sig, format string, args ...any), cmd string, before
 			kind, path, _ := strings.Cut(d, " ")
 			dir, name := filepath.Split(path)
 			dir = strings.TrimSuffix(dir, "/")
-			if kind != "removed" || !zzvIsData(dir, name) || !strings.HasPrefix(before[path], "file:") {
+			if kind != "removed" || !zzvIsData(dir, name) || !(strings.HasPrefix(before[path], "file:") || strings.HasPrefix(before[path], "other:L")) {
 				fail("clean-touched-other", "clean: %s (was %.12s)", d, before[path])
 			}
 		}
 		for path, v := range before {
 			dir, name := filepath.Split(path)
 			dir = strings.TrimSuffix(dir, "/")
-			if zzvIsData(dir, name) && strings.HasPrefix(v, "file:") {
+			if zzvIsData(dir, name) && (strings.HasPrefix(v, "file:") || strings.HasPrefix(v, "other:L")) {
 				if _, still := after[path]; still {
 					fail("clean-left-data", "clean left %s behind", path)
 				}
@@ -160,7 +167,7 @@ func TestVerifC19(t *testing.T) {
 	res := vrep.New("C19", p)
 	defer res.Guard()
 	base, _ := vrep.Scratch("c19")
-	res.Rule = "E3: every subset of size <= 2 (thorough 3) of a 19-name pool (data files, near misses, weekends, token, lock, sub-directories named like data files) in local/ x every subset of size <= 1 (2) in upload/, with fixed near-miss files in the root and debug/, then clean; E2: every command sequence of length <= 3 over {on, local, off, clean, env, library SetMode(on), SetMode(bogus)} from 6 mode-file states; conformance: depth-1 cases replayed through the built gotelemetry binary; classes = (files removed, mode transitions)"
+	res.Rule = "E3: every subset of size <= 2 (thorough 3) of a 21-name pool (data files, near misses, weekends, token, lock, sub-directories and symbolic links named like data files) in local/ x every subset of size <= 1 (2) in upload/, with fixed near-miss files in the root and debug/, then clean; E2: every command sequence of length <= 3 over {on, local, off, clean, env, library SetMode(on), SetMode(bogus)} from 6 mode-file states; conformance: depth-1 cases replayed through the built gotelemetry binary; classes = (files removed, mode transitions)"
 	res.Assumptions = []string{"the date is today's (UTC) at the time of the call"}
 	subsets := func(max int) [][]string {
 		var out [][]string
